@@ -384,7 +384,16 @@ class NameBinding(Binding):
             elif isinstance(node, ast.ExceptHandler):
                 node.name = new_name
             elif isinstance(node, (ast.Global, ast.Nonlocal)):
-                node.names = [new_name if n == self._name else n for n in node.names]
+                # Another binding listed in this statement may already have been renamed to our old name,
+                # only replace the entries that haven't been renamed yet
+                renamed = getattr(node, 'renamed_names', set())
+                names = list(node.names)
+                for i, n in enumerate(names):
+                    if n == self._name and i not in renamed:
+                        names[i] = new_name
+                        renamed.add(i)
+                node.names = names
+                node.renamed_names = renamed
             elif isinstance(node, ast.arguments):
 
                 rename_vararg = (node.vararg == self._name) and not getattr(node, 'vararg_renamed', False)
